@@ -324,7 +324,7 @@ func evTokenFor(chain string) string {
 }
 
 func init() {
-	Register("C17", MultiRunner(func(tier string) ([]MultiCase, []string) {
+	c17base := MultiRunner(func(tier string) ([]MultiCase, []string) {
 		d2, d1, dl := 4, 5, 60*time.Second
 		if tier == "thorough" {
 			d2, d1, dl = 4, 6, 10*time.Minute
@@ -360,5 +360,64 @@ func init() {
 				"that the transaction is signed by the account MsgDelegateKeys.GetSigners names is enforced by the SDK ante handler; the check verifies GetSigners names exactly the validator's own account",
 				"only-if direction: a successful registration must carry a valid signature of the external key over (validator, sequence) and keep the registry one-to-one; rejecting a valid one is not a violation",
 			}
-	}))
+	})
+	Register("C17", func(tier string) *Runner {
+		b := c17base(tier)
+		return &Runner{Replay: b.Replay, Run: func(o RunOpts) Output {
+			out := b.Run(o)
+			n, bad := c17SignBytesGrid()
+			if cov, ok := out.Evidence["coverage"].(map[string]interface{}); ok {
+				cov["sign_bytes_grid_pairs"] = n
+				cov["sign_bytes_grid_rule"] = "the bytes the validator's account signs in amino-JSON mode (MsgDelegateKeys.GetSignBytes) differ whenever one field of the registration differs - chain id, validator, orchestrator, external address, signature: a signed registration cannot be re-targeted"
+			}
+			if len(out.Violations) == 0 && out.InternalError == "" {
+				for _, v := range bad {
+					out.Violations = append(out.Violations, engine.Found{Violation: v, Reproduced: 5})
+				}
+			}
+			out.Summary += fmt.Sprintf(" sign_bytes_pairs=%d", n)
+			return out
+		}}
+	})
+}
+
+// c17SignBytesGrid: "a binding is created only by the validator's own account": what that account signs names every
+// field of the registration.
+func c17SignBytesGrid() (int, []engine.Violation) {
+	v, w := hub.NewValidator("A"), hub.NewValidator("B")
+	base := mhubtypes.MsgDelegateKeys{ValidatorAddress: v.Oper.String(), OrchestratorAddress: v.Orch.String(), ExternalAddress: v.Eth.Hex(), EthSignature: []byte{1, 2, 3}, ChainId: "ethereum"}
+	type variant struct {
+		name string
+		m    mhubtypes.MsgDelegateKeys
+	}
+	vs := []variant{{"", base}}
+	add := func(name string, f func(m *mhubtypes.MsgDelegateKeys)) {
+		m := base
+		f(&m)
+		vs = append(vs, variant{name, m})
+	}
+	add("chain id bsc", func(m *mhubtypes.MsgDelegateKeys) { m.ChainId = "bsc" })
+	add("chain id minter", func(m *mhubtypes.MsgDelegateKeys) { m.ChainId = "minter" })
+	add("no chain id", func(m *mhubtypes.MsgDelegateKeys) { m.ChainId = "" })
+	add("other validator", func(m *mhubtypes.MsgDelegateKeys) { m.ValidatorAddress = w.Oper.String() })
+	add("other orchestrator", func(m *mhubtypes.MsgDelegateKeys) { m.OrchestratorAddress = w.Orch.String() })
+	add("other external address", func(m *mhubtypes.MsgDelegateKeys) { m.ExternalAddress = w.Eth.Hex() })
+	add("other signature", func(m *mhubtypes.MsgDelegateKeys) { m.EthSignature = []byte{1, 2, 4} })
+	var bad []engine.Violation
+	n := 0
+	sb := func(m mhubtypes.MsgDelegateKeys) (out []byte) {
+		defer func() { recover() }()
+		return m.GetSignBytes()
+	}
+	for i := range vs {
+		for j := i + 1; j < len(vs); j++ {
+			n++
+			a, b := sb(vs[i].m), sb(vs[j].m)
+			if a != nil && b != nil && bytes.Equal(a, b) {
+				bad = append(bad, engine.Violation{Property: "C17", Rule: "sign_bytes_do_not_bind_the_registration", Site: "MsgDelegateKeys.GetSignBytes",
+					Detail: fmt.Sprintf("registrations %q and %q have the same sign bytes: the account's signature over one authorises the other", vs[i].name, vs[j].name)})
+			}
+		}
+	}
+	return n, bad
 }
